@@ -150,14 +150,15 @@ claim("C12", "exploration", T2 + "; a small T1 part (dispatch on the AST; the de
       "anything else raises TypeError; the scoped copies of Tree, TreeList and CharacterMatrix fill a fresh memo from their own namespace and copy with that memo; "
       "populate_memo_for_taxon_namespace_scoped_copy enters the namespace and EVERY taxon as standing for itself and keeps the other entries.",
       "copy.copy / copy.deepcopy are stdlib/C, ASSUMED to their documented contracts (memo semantics); id() injective on live objects", "DESIGN.md section 5 C12")
-claim("C13", "exploration", T2 + "; a small T1 part (AST obligations, no solver) for the source-kind clause and the glue of three routes (whole list with offsets, single tree by offsets, incremental read)",
+claim("C13", "exploration", T2 + "; a small T1 part (AST obligations, no solver) for the source-kind clause and the glue of four routes (whole list with offsets, single tree by offsets, incremental read, full data set)",
       "Bounded (deciding): generated corpus (<= 2 TREES blocks x <= 3 statements x TRANSLATE/comments/weights/rooting tokens) in Newick/NEXUS/NeXML, CR / CR+LF variants, "
       "character documents: every reading route against TreeList.get / DataSet.get. Discharged on the AST (T1, source-kind clause only, not what the level is claimed for): "
       "get_from_/read_from_ stream, path and string reach one stream function per class family with the same schema and keyword arguments, and a path and a string are both "
       "read through universal-newlines text streams; Tree.get makes its reader for the caller's schema and options, reads the caller's stream, takes an offset as 0 exactly when "
       "it is not given and returns tree_lists[collection_offset][tree_offset] with only the label set; TreeList.read delegates once to the whole-list route with the caller's "
       "stream, schema, offsets and options plus tree_list=self over its own namespace, refuses a foreign namespace, and returns the growth of the list; the whole-list route takes only tree_list / label / namespace keywords out of the options, selects "
-      "tree_lists[collection_offset] (the first collection for a tree offset alone) and appends every tree from the offset on, in order.",
+      "tree_lists[collection_offset] (the first collection for a tree offset alone) and appends every tree from the offset on, in order; DataSet.get / DataSet.read make one unconditional read_dataset call with the caller's stream, exclusion flags "
+      "(False by default) and namespace (the attached one when none is given; another refused), and read returns the growth of the three lists.",
       "relates whole parsers (DESIGN.md section 6); one recorded known finding; open()/StringIO line-end translation ASSUMED as documented", "DESIGN.md section 5 C13")
 claim("C14", "proof", T1 + " (heap theory B, bit masks as sets, Python iterators as (list snapshot, position), the **kwargs dictionary with literal keys); " + T2,
       "Proved (T1, MRCA clause): for tree.mrca(leafset_bitmask=q, is_bipartitions_updated=True) on an encoded tree the result is None exactly when q is not contained in the "
